@@ -299,6 +299,8 @@ impl UnitRunner for C09 {
         for (ci, k) in counts.iter().enumerate() {
           let body = std::iter::repeat(t).take(*k).collect::<Vec<_>>().join(sep);
           let text = format!("{}{}{}", o, body, c);
+          // quick: the long counts only with the two tightest separators
+          if self.tier == Tier::Quick && *k > 64 && !["", "."].contains(&sep) { break; }
           let openers = text.chars().filter(|ch| matches!(ch, '[' | '{' | '(' | '<')).count();
           if openers > self.tier.pick(4, 5) { out.count("skipped_nesting_beyond_bound"); break; }
           let t0 = std::time::Instant::now();
